@@ -69,7 +69,7 @@ def strategy(tier):
     # an element is one raw state per device, or "reconnect": the facade is discarded and a new one is built on the same spa state
     # (what every reset / recovery does) while the process-wide configuration stays as it is
     assign = st.lists(st.integers(0, 3), min_size=8, max_size=8)
-    fac = st.builds(lambda si, seq, init: dict({"k": "facade", "snap": si, "seq": seq}, **({"init": init} if init else {})),
+    fac = st.builds(lambda si, seq, init: dict({"k": "facade", "snap": si, "seq": seq}, **({"init": init} if init else {}), **({"wire_all": True} if si % 2 else {})),
                     st.integers(0, 60), st.lists(st.one_of(assign, assign, assign, assign, st.just("reconnect"), assign.map(lambda a: ["reconnect", a]),
                                        st.just(["reconnect", [0] * 8])), min_size=1, max_size=10),
                     st.one_of(st.none(), assign))
@@ -189,6 +189,29 @@ def _snapshots():
     return _snaps
 
 
+def _state_tag(d):
+    """which item holds a device's state: from the pinned device table (the facade's own idea of it is what is being checked)"""
+    from .c12 import TABLE
+    ent = TABLE.get(d.key)
+    return ent[3] if ent is not None else d._state_sensor.accessor.tag
+
+
+def _wire_all(pair, block):
+    """outputs re-configured so that every device the pack knows (P1..P5, blower, waterfall, lights) is wired to some output"""
+    from .c12 import WIRING, outputs_of
+    done = set()
+    for tag in outputs_of(pair):
+        it = pair.items[tag]
+        for li, lab in enumerate(it.labels or []):
+            dev = WIRING.get(lab)
+            if dev is not None and dev not in done:
+                done.add(dev)
+                pos, w, word = it.encode_raw(block, li)
+                block = packs.apply_write(block, pos, w, word)
+                break
+    return block
+
+
 def _run_facade(res, case):
     from geckolib import GeckoAsyncFacade
     from geckolib import config as gc
@@ -214,7 +237,7 @@ def _run_facade(res, case):
     def cfg_on_of(fac_, block_):
         out_ = []
         for d in fac_.pumps + fac_.blowers:
-            it = pair.items[d._state_sensor.accessor.tag]
+            it = pair.items[_state_tag(d)]
             v = it.decode(block_)
             out_.append((v is True) if it.kind == "Bool" else (v != "OFF"))
         return out_
@@ -236,13 +259,15 @@ def _run_facade(res, case):
     async def main(W):
         tm = facades.FakeTaskMan()
         block0 = snap.bytes
+        if case.get("wire_all"):
+            block0 = _wire_all(pair, block0)
         init = case.get("init")
         if init:
             # devices that are already running when the facade is built
             probe_tm = facades.FakeTaskMan()
             probe = GeckoAsyncFacade(facades.make_async_spa(plat, cv, lv, block0, probe_tm), probe_tm)
             for d, raw in zip(probe.pumps + probe.blowers + probe.lights, init):
-                it = pair.items[d._state_sensor.accessor.tag]
+                it = pair.items[_state_tag(d)]
                 pos, w, word = it.encode_raw(block0, raw % it.capacity)
                 block0 = packs.apply_write(block0, pos, w, word)
             await probe.disconnect()
@@ -266,7 +291,7 @@ def _run_facade(res, case):
             def cfg_states(block):
                 out_ = []
                 for d in fac.pumps + fac.blowers:
-                    it = pair.items[d._state_sensor.accessor.tag]
+                    it = pair.items[_state_tag(d)]
                     v = it.decode(block)
                     out_.append((v is True) if it.kind == "Bool" else (v != "OFF"))
                 return out_
@@ -281,7 +306,7 @@ def _run_facade(res, case):
                     if isinstance(assign, list) and len(assign) > 1:
                         # the devices change state while nobody is connected (the gap between two connections)
                         for d, raw in zip(devs, assign[1]):
-                            it = pair.items[d._state_sensor.accessor.tag]
+                            it = pair.items[_state_tag(d)]
                             pos, w, word = it.encode_raw(block, raw % it.capacity)
                             block = packs.apply_write(block, pos, w, word)
                     await fac.disconnect()
@@ -300,7 +325,7 @@ def _run_facade(res, case):
                 # assign a raw state value to each device's state item
                 block = spa.struct.status_block
                 for d, raw in zip(devs, assign):
-                    tag = d._state_sensor.accessor.tag
+                    tag = _state_tag(d)
                     it = pair.items[tag]
                     pos, w, word = it.encode_raw(block, raw % it.capacity)
                     block = packs.apply_write(block, pos, w, word)
@@ -315,13 +340,13 @@ def _run_facade(res, case):
                 cfg_on = []
                 light_only = False
                 for d in fac.pumps + fac.blowers:
-                    it = pair.items[d._state_sensor.accessor.tag]
+                    it = pair.items[_state_tag(d)]
                     v = it.decode(block)
                     cfg_on.append((v is True) if it.kind == "Bool" else (v != "OFF"))
                 want_active = any(cfg_on)
                 lights_on = []
                 for d in fac.lights:
-                    it = pair.items[d._state_sensor.accessor.tag]
+                    it = pair.items[_state_tag(d)]
                     v = it.decode(block)
                     lights_on.append((v is True) if it.kind == "Bool" else (v != "OFF"))
                 if any(lights_on) and not want_active:
